@@ -16,6 +16,7 @@ package main
 import (
 	"database/sql"
 	"encoding/json"
+	"errors"
 	"fmt"
 	"math/rand"
 	"reflect"
@@ -58,6 +59,7 @@ func c01OpenSqlite(dialect string) (*gorm.DB, *Recorder) {
 	for i := 1; i <= 6; i++ {
 		db.Create(&VSoft{ID: uint(i), Name: fmt.Sprint("n", i%3), Age: 20 + i})
 	}
+	c01SeedRel(db)
 	rec.Reset()
 	return db, rec
 }
@@ -120,11 +122,30 @@ type c01Expect struct {
 }
 
 type c01Case struct {
-	Desc   []string
-	Fin    string
-	M      *markerGen
-	Run    func(db *gorm.DB) *gorm.DB
-	Expect []c01Expect
+	Desc    []string
+	Fin     string
+	M       *markerGen
+	Run     func(db *gorm.DB) *gorm.DB
+	Expect  []c01Expect
+	ExtraOK bool // statements after the expected ones (preload queries) are judged on text / placeholder count only
+}
+
+// c01AnyCond: a condition from one of the generators (shared genCond, typed lists, named containers, sub-queries)
+func c01AnyCond(rng *rand.Rand, m *markerGen, db *gorm.DB) condForm {
+	switch r := rng.Intn(12); {
+	case r < 5:
+		c01H("e2e.cond-source", "genCond")
+		return genCond(rng, m, db, 1)
+	case r < 8:
+		c01H("e2e.cond-source", "typed-list")
+		return c01TypedCond(rng, m, "")
+	case r < 11:
+		c01H("e2e.cond-source", "named")
+		return c01NamedCond(rng, m)
+	default:
+		c01H("e2e.cond-source", "sub-query")
+		return c01SubCond(rng, m, db, false)
+	}
 }
 
 func c01SimpleCond(rng *rand.Rand, m *markerGen) condForm {
@@ -167,10 +188,10 @@ func c01GenSteps(rng *rand.Rand, m *markerGen, db *gorm.DB, caps c01Caps, whereO
 	haveSelect, haveTable, haveGroup, haveOrder, firstWhere := false, false, false, false, true
 	nj := 0
 	for i := 0; i < n; i++ {
-		k := rng.Intn(20)
+		k := rng.Intn(25)
 		switch {
 		case k < 11 || whereOnly:
-			c := genCond(rng, m, db, 1)
+			c := c01AnyCond(rng, m, db)
 			op := rng.Intn(6)
 			if firstWhere && op >= 3 && op < 5 {
 				op = 0 // a leading Or is re-ordered by Where.Build; keep the generator's order trivially right
@@ -212,9 +233,53 @@ func c01GenSteps(rng *rand.Rand, m *markerGen, db *gorm.DB, caps c01Caps, whereO
 			steps = append(steps, c01Step{"Joins(sub-query, arg)", "joins", []interface{}{a, s}, func(d *gorm.DB) *gorm.DB {
 				return d.Joins("LEFT JOIN (?) AS "+alias+" ON "+alias+".id = v_users.id AND v_users.email <> ?", sub, s)
 			}})
+		case k == 20 && caps.sel && !haveSelect:
+			haveSelect = true
+			nm := c01GenNamed(rng, m, "v_users.")
+			steps = append(steps, c01Step{"Select(" + nm.Desc + ")", "select", nm.Bound, func(d *gorm.DB) *gorm.DB {
+				return d.Select("v_users.*, (CASE WHEN "+nm.Tmpl+" THEN 1 ELSE 0 END) AS x", nm.Args...)
+			}})
+		case k == 21 && caps.joins:
+			nj++
+			alias := fmt.Sprint("j", nj)
+			nm := c01GenNamed(rng, m, alias+".")
+			steps = append(steps, c01Step{"Joins(raw, " + nm.Desc + ")", "joins", nm.Bound, func(d *gorm.DB) *gorm.DB {
+				return d.Joins("LEFT JOIN v_users AS "+alias+" ON "+alias+".id = v_users.id AND ("+nm.Tmpl+")", nm.Args...)
+			}})
+		case k == 22 && caps.joins:
+			nj++
+			alias := fmt.Sprint("j", nj)
+			c := c01TypedCond(rng, m, alias+".")
+			for { // raw joins take a text + args: only the template routes
+				if _, ok := c.query.(string); ok {
+					break
+				}
+				c = c01TypedCond(rng, m, alias+".")
+			}
+			steps = append(steps, c01Step{"Joins(raw, " + c.desc + ")", "joins", c.bound, func(d *gorm.DB) *gorm.DB {
+				return d.Joins("INNER JOIN v_users AS "+alias+" ON "+alias+".id = v_users.id AND "+c.query.(string), c.args...)
+			}})
+		case k == 23 && caps.order && !haveOrder:
+			haveOrder = true
+			sub, b, sd := c01GenSub(rng, m, db, rng.Intn(3), true)
+			steps = append(steps, c01Step{"Order(clause.Expr{sub-query " + sd + "})", "order", b, func(d *gorm.DB) *gorm.DB {
+				return d.Order(clause.OrderBy{Expression: clause.Expr{SQL: "(age > (?)) DESC", Vars: []interface{}{sub}}})
+			}})
+		case k == 24 && !whereOnly:
+			c := c01SubCond(rng, m, db, false)
+			firstWhere = false
+			steps = append(steps, c01Step{"Where(" + c.desc + ")", "where", c.bound, func(d *gorm.DB) *gorm.DB { return d.Where(c.query, c.args...) }})
 		case k == 15 && caps.group && !haveGroup:
 			haveGroup = true
 			c := c01SimpleCond(rng, m)
+			switch rng.Intn(5) {
+			case 0:
+				c = c01TypedCond(rng, m, "")
+			case 1:
+				c = c01NamedCond(rng, m)
+			case 2:
+				c = c01SubCond(rng, m, db, true)
+			}
 			steps = append(steps, c01Step{"Group(name).Having(" + c.desc + ")", "having", c.bound, func(d *gorm.DB) *gorm.DB {
 				return d.Group("name").Having(c.query, c.args...)
 			}})
@@ -276,7 +341,9 @@ func c01Descs(steps []c01Step) []string {
 var c01Finishers = []string{"Find", "Scan", "Take", "First", "Last", "Count", "Pluck", "FindInline", "Rows",
 	"Update", "UpdatesMap", "UpdatesStruct", "UpdateColumn", "UpdateExpr", "UpdatesMapExpr", "Delete", "DeleteInline", "SoftDelete", "SoftFind",
 	"CreateStruct", "CreateSlice", "CreateMap", "Upsert", "UpsertExpr", "UpsertUpdateAll", "FirstOrCreate",
-	"RawPositional", "RawNamed", "RawMap", "RawStruct", "RawSubquery", "RawInRaw", "ExecPositional", "ExecNamed"}
+	"RawPositional", "RawNamed", "RawMap", "RawStruct", "RawSubquery", "RawInRaw", "ExecPositional", "ExecNamed",
+	"RelJoin", "RelJoin", "RelJoin", "RelJoin", "RawNamedGen", "RawNamedGen", "ExecNamedGen", "ExecNamedGen", "InlineNamed", "RawNested",
+	"UpdateExprList", "UpdatesMapExprList", "CreateMapExprList", "UpdateSub", "UpdatesMapSub", "RawTypedList", "ExecTypedList"}
 
 func nowArg() interface{} { return fixedNow }
 
@@ -287,7 +354,7 @@ func c01GenCase(seed int64, db *gorm.DB) *c01Case {
 	fin := c01Finishers[rng.Intn(len(c01Finishers))]
 	c := &c01Case{Fin: fin, M: m}
 	exp := func(prefix string, args ...interface{}) {
-		c.Expect = append(c.Expect, c01Expect{prefix, normArgs(args)})
+		c.Expect = append(c.Expect, c01Expect{prefix, c01NormAll(args)})
 	}
 	cat := func(a []interface{}, b ...interface{}) []interface{} { return append(append([]interface{}{}, a...), b...) }
 	switch fin {
@@ -406,6 +473,11 @@ func c01GenCase(seed int64, db *gorm.DB) *c01Case {
 			var vs []VSoft
 			return tx.Find(&vs)
 		}
+	case "RelJoin":
+		c01GenRelCase(rng, m, db, c)
+	case "RawNamedGen", "ExecNamedGen", "InlineNamed", "RawNested", "UpdateExprList", "UpdatesMapExprList", "CreateMapExprList",
+		"UpdateSub", "UpdatesMapSub", "RawTypedList", "ExecTypedList":
+		c01GenCase2(rng, m, db, c, exp, cat)
 	case "CreateStruct":
 		s1, i1, s2 := m.S(), m.I(), m.S()
 		exp("INSERT", s1, i1, nil, s2, nowArg())
@@ -545,7 +617,7 @@ func c01Judge(db *gorm.DB, rec *Recorder, dialect string, c *c01Case) c01Verdict
 		if isTxEvent(e) || e.Kind == "prepare" || e.Kind == "stmt_close" {
 			continue
 		}
-		args := normArgs(e.Args)
+		args := c01NormAll(e.Args)
 		v.Stmts = append(v.Stmts, append([]string{e.SQL}, args...))
 		// (1) no marker in the text
 		for _, s := range c.M.strs {
@@ -584,16 +656,75 @@ func c01Judge(db *gorm.DB, rec *Recorder, dialect string, c *c01Case) c01Verdict
 				v.Bad = "bound values differ from the generator's left-to-right flattening"
 			}
 			ei++
-		} else {
+		} else if !c.ExtraOK {
 			v.Bad = "more statements than expected"
 		}
 	}
+	if v.Bad == "" && len(c.Expect) == 1 && !c.ExtraOK {
+		c01JudgeDry(db, dialect, c, &v)
+	}
 	return v
+}
+
+// c01JudgeDry: the second observation point named by the property - Statement.SQL / Statement.Vars after a DryRun
+// finisher (same dialector).  It sees statements database/sql refuses before they reach the driver (a bound value
+// of a type the default converter rejects, e.g. a struct that should have been taken apart into named arguments).
+// Latitude: a run that ends in an error other than "dry run mode unsupported" built no statement to judge.
+func c01JudgeDry(db *gorm.DB, dialect string, c *c01Case, v *c01Verdict) {
+	var res *gorm.DB
+	func() {
+		defer func() {
+			if e := recover(); e != nil {
+				res = nil
+			}
+		}()
+		res = c.Run(db.Session(&gorm.Session{DryRun: true}))
+	}()
+	if res == nil || res.Statement == nil || (res.Error != nil && !errors.Is(res.Error, gorm.ErrDryRunModeUnsupported)) {
+		return
+	}
+	text := res.Statement.SQL.String()
+	if text == "" {
+		return
+	}
+	args := c01NormAll(res.Statement.Vars)
+	bad := ""
+	for _, s := range c.M.strs {
+		if strings.Contains(text, s) {
+			bad = "marker value occurs in the SQL text: " + s
+		}
+	}
+	for _, n := range c.M.ints {
+		if strings.Contains(text, strconv.Itoa(n)) {
+			bad = "marker value occurs in the SQL text: " + strconv.Itoa(n)
+		}
+	}
+	phs := c01Placeholders(text)
+	if len(phs) != len(args) {
+		bad = fmt.Sprintf("%d placeholders in the text, %d bound values", len(phs), len(args))
+	} else {
+		for k, p := range phs {
+			if (dialect == "dollar" && p != k+1) || (dialect != "dollar" && p != 0) {
+				bad = fmt.Sprintf("placeholder #%d is $%d", k+1, p)
+				break
+			}
+		}
+	}
+	if bad == "" && strings.HasPrefix(strings.TrimSpace(text), c.Expect[0].Prefix) &&
+		!reflect.DeepEqual(args, c.Expect[0].Args) && !(len(args) == 0 && len(c.Expect[0].Args) == 0) {
+		bad = "bound values differ from the generator's left-to-right flattening"
+	}
+	if bad != "" {
+		v.Bad = "DryRun Statement: " + bad
+		v.Stmts = append(v.Stmts, append([]string{"[dry-run] " + text}, args...))
+	}
 }
 
 func init() {
 	run := func(r *Result, dialect string, seeds []int64, probe bool) {
 		db, rec := c01OpenSqlite(dialect)
+		c01Hist = func(h, b string) { r.H(h, b) }
+		defer func() { c01Hist = nil }()
 		for i, seed := range seeds {
 			if expired() {
 				break
@@ -662,7 +793,7 @@ func init() {
 		probeF21(r, in.Dialect)
 	}
 	register("C01", func(r *Result, rng *rand.Rand, tier string) {
-		n := 700
+		n := 1500
 		if tier == "thorough" {
 			n = 40000
 		} else if tier == "search" {
